@@ -54,6 +54,14 @@ pub fn mz_flush_of(v: i64) -> MZFlush {
 }
 
 pub fn make_compressor(s: &Script) -> CompressorOxide {
+    let mut d = construct(s);
+    if s.c("pre_reset") == 0 || s.c("setter_before_reset") != 0 {
+        apply_setters(s, &mut d);
+    }
+    d
+}
+
+fn construct(s: &Script) -> CompressorOxide {
     let zlib = s.c("zlib") != 0;
     let level = s.c("level");
     let strategy = s.c("strategy");
@@ -76,6 +84,33 @@ pub fn make_compressor(s: &Script) -> CompressorOxide {
             CompressorOxide::with_format_and_level(fmt, l)
         }
         _ => CompressorOxide::with_params(fmt, level.clamp(0, 255) as u8, strategy_of(strategy), wb.clamp(0, 255) as u8),
+    }
+}
+
+/// Settings changed through the public setters before the first compress call (after construction, or after
+/// the reset of a reused compressor): cfg "setter" = 1 set_compression_level, 2 set_compression_level_raw,
+/// 3 set_format_and_level; "setter_level", "setter_zlib"; "setter2*" a second call.
+pub fn apply_setters(s: &Script, d: &mut CompressorOxide) {
+    for pre in ["setter", "setter2"] {
+        let k = s.c(pre);
+        if k == 0 {
+            continue;
+        }
+        let level = s.c(&format!("{}_level", pre)).clamp(0, 255) as u8;
+        match k {
+            1 => {
+                let l = match level {
+                    0 => CompressionLevel::NoCompression,
+                    1 => CompressionLevel::BestSpeed,
+                    9 => CompressionLevel::BestCompression,
+                    10 => CompressionLevel::UberCompression,
+                    _ => CompressionLevel::DefaultLevel,
+                };
+                d.set_compression_level(l);
+            }
+            2 => d.set_compression_level_raw(level),
+            _ => d.set_format_and_level(if s.c(&format!("{}_zlib", pre)) != 0 { DataFormat::Zlib } else { DataFormat::Raw }, level),
+        }
     }
 }
 
@@ -122,6 +157,15 @@ pub fn effective(s: &Script) -> Effective {
     if level == 0 {
         strategy = -1; // stored only; strategy is not applied at level 0
     }
+    if s.c("setter") != 0 || s.c("setter2") != 0 {
+        // a setter replaces level and strategy (or refuses to, when the window set at creation is too small):
+        // the format is asked from the object, the mode clauses are not evaluated
+        let mut d = construct(s);
+        apply_setters(s, &mut d);
+        zlib = d.data_format() == DataFormat::Zlib;
+        level = -2;
+        strategy = -2;
+    }
     Effective { zlib, level, strategy, window_bits: wb }
 }
 
@@ -153,6 +197,12 @@ pub fn run_pipe(s: &Script, plain: &[u8], ops: &[Vec<i64>], st: &mut Stats) -> R
         let _ = compress(&mut d, junk, &mut tmp, if s.c("pre_reset") % 2 == 0 { TDEFLFlush::Finish } else { TDEFLFlush::Sync });
         d.reset();
         st.inc("probe.compressor_reused_after_reset");
+        if s.c("setter_before_reset") == 0 {
+            apply_setters(s, &mut d);
+        }
+    }
+    if s.c("setter") != 0 {
+        st.inc("probe.setter_used");
     }
     let zlib_fmt = d.data_format() == DataFormat::Zlib;
     let adler_on = zlib_fmt || (d.flags() as u32 & miniz_oxide::deflate::core::deflate_flags::TDEFL_COMPUTE_ADLER32) != 0;
@@ -379,8 +429,36 @@ pub fn run_pipe(s: &Script, plain: &[u8], ops: &[Vec<i64>], st: &mut Stats) -> R
 }
 
 pub fn exec(s: &Script, st: &mut Stats) -> Result<RunInfo, Violation> {
+    let count = s.c("phase_count");
+    if count > 0 {
+        // phase sweep: the same data behind r zero bytes for every r in [phase_from, phase_from + count):
+        // a long run costs the compressor almost no LZ codes, so r shifts the instant at which the LZ code
+        // buffer fills (and a block is closed by the compressor itself) through every phase of the
+        // 4096-byte look-ahead rounds and of the call boundaries
+        let body = s.blob("plain");
+        let from = s.c("phase_from").max(0) as usize;
+        let mut hh = Hasher::new();
+        let mut nontrivial = false;
+        let mut plain: Vec<u8> = Vec::with_capacity(from + count as usize + body.len());
+        for r in from..from + count as usize {
+            plain.clear();
+            plain.resize(r, s.c("phase_byte") as u8);
+            plain.extend_from_slice(body);
+            let ri = exec_one(s, &plain, st).map_err(|mut v| {
+                v.detail = format!("[phase sweep, prefix length {}] {}", r, v.detail);
+                v
+            })?;
+            hh.u(ri.hash);
+            nontrivial |= ri.nontrivial;
+        }
+        st.add("probe.phase_sweep_phases", count as u64);
+        return Ok(RunInfo { hash: hh.0, nontrivial });
+    }
+    exec_one(s, s.blob("plain"), st)
+}
+
+fn exec_one(s: &Script, plain_full: &[u8], st: &mut Stats) -> Result<RunInfo, Violation> {
     let clauses = s.c("clauses");
-    let plain_full = s.blob("plain");
     let cp: &str = &s.prop;
     let run = if s.c("driver") == 3 {
         // one-shot emitters (C10): compress_to_vec / compress_to_vec_zlib
